@@ -18,7 +18,9 @@ func c03Cfg(s *EnumSpec, v []int) RCfg {
 	cfg := RCfg{Name: c03Names,
 		Listens: []RListen{{Addr: "127.0.0.1", UDP: 5060, TCP: 5062, Backends: []string{"udp://127.0.1.1:7000", "tcp://127.0.1.2:7000"}}},
 		Routes: []RRoute{{Dests: []string{"static.example.org"}, Protocol: "udp", NextHop: "st.example.net:5080"},
-			{Dests: []string{"*.wild.example.org"}, Protocol: "tcp", NextHop: "127.0.3.2:5090"}},
+			{Dests: []string{"*.wild.example.org"}, Protocol: "tcp", NextHop: "127.0.3.2:5090"},
+			// an exact entry for a host the wildcard entry also matches (and whose text is no longer than the pattern)
+			{Dests: []string{"a.wild.example.org"}, Protocol: "udp", NextHop: "127.0.3.4:5085"}},
 		Hosts: [][2]string{{"proxy.example.com", "127.0.0.1"}, {"nh.example.net", "127.0.2.1"}, {"st.example.net", "127.0.3.1"}},
 	}
 	switch s.Val(v, "names") {
@@ -79,7 +81,7 @@ func c03Msg(s *EnumSpec, v []int) *WMsg {
 	case "next+further":
 		routes = []string{"<" + hop + ">", "<sip:127.0.2.2:5070;lr>"}
 	}
-	to := map[string]string{"nomatch": "nomatch.example.org", "exact": "static.example.org", "wildcard": "x.wild.example.org"}[s.Val(v, "tohost")]
+	to := map[string]string{"nomatch": "nomatch.example.org", "exact": "static.example.org", "wildcard": "x.wild.example.org", "exact-under-wildcard": "a.wild.example.org"}[s.Val(v, "tohost")]
 	ruri := map[string]string{
 		"foreign": "sip:bob@foreign.example.net", "service-host": "sip:bob@svc.example.com", "regex-only": "sip:12345@num.example.com",
 		"user-at-host": "sip:carol@pbx.example.com", "wrong-user": "sip:dave@pbx.example.com", "urn": "urn:service:sos", "tel": "tel:+15551234",
@@ -242,7 +244,7 @@ func init() {
 			{Name: "hopport", Vals: []string{"absent", "5060", "5070"}},
 			{Name: "hoptransport", Vals: []string{"absent", "udp", "tcp", "TCP", "tls", "sctp", "UDP"}, Quick: 5},
 			{Name: "hoplr", Vals: []string{"lr", "none"}},
-			{Name: "tohost", Vals: []string{"nomatch", "exact", "wildcard"}},
+			{Name: "tohost", Vals: []string{"nomatch", "exact", "wildcard", "exact-under-wildcard"}},
 			{Name: "table", Vals: []string{"no-default", "default-udp", "default-tls", "empty"}, Quick: 2},
 			{Name: "ruri", Vals: []string{"foreign", "service-host", "regex-only", "user-at-host", "wrong-user", "urn", "tel", "listener", "listener-noport", "listener-wrong-port", "substring-user", "service-host-nouser"}, Quick: 9},
 			{Name: "keep", Vals: []string{"off", "true", "Yes", "0"}, Quick: 2},
